@@ -375,9 +375,11 @@ class FunctionVC(Executor):
                 result = self.fresh_typed(rty, post)
         # the havoced contents describe the heap AFTER the call: they may hold the object the callee returns, so the
         # array constants created above are (re)stamped after the result's allocation (allocation-order rule of the rewriter)
+        restamp0 = smt._clock[0]
         for nm, ev in list(smt.EVENT.items()):
             if ev > clock0 and (nm.startswith("hv_") or nm.startswith("H_")):
                 smt.tick(nm)
+        post.assume(*smt.birth_facts_since(restamp0))
         post.env["result"] = result
         self.env0, self.heap0 = dict(bound), pre_heap
         try:
